@@ -69,6 +69,9 @@ func ParseSecrets(secrets []*big.Int) ([][]*big.Int, error) {
 			return nil, errors.New("ParseSecrets: `el` overflow")
 		}
 		if isLenEl {
+			if secrets[el].Sign() < 0 || !secrets[el].IsInt64() {
+				return nil, fmt.Errorf("ParseSecrets: invalid commitment part length: part %d", len(parts))
+			}
 			nextPartLen = secrets[el].Int64()
 			if MaxPartSize < nextPartLen {
 				return nil, fmt.Errorf("ParseSecrets: commitment part too large: part %d, size %d", len(parts), nextPartLen)
@@ -86,6 +89,16 @@ func ParseSecrets(secrets []*big.Int) ([][]*big.Int, error) {
 			el += nextPartLen
 		}
 		isLenEl = !isLenEl
+	}
+	if !isLenEl {
+		// the input ended with a length prefix: only an empty final part is well-formed
+		if nextPartLen != 0 {
+			return nil, errors.New("ParseSecrets: not enough data to consume stated data length")
+		}
+		if PartsCap <= len(parts) {
+			return nil, fmt.Errorf("ParseSecrets: commitment has too many parts: part %d, max %d", len(parts), PartsCap)
+		}
+		parts = append(parts, secrets[el:el])
 	}
 	return parts, nil
 }
